@@ -281,6 +281,7 @@ func symIntrinsic(fr *frame, fn *ssa.Function, args []value) (value, bool) {
 		return nil, true
 	case "verifPreemptAfterSend":
 		fr.i.preemptAfterSend = args[0].(bool)
+		fr.i.preemptsLeft = 2
 		return nil, true
 	case "verifCatch":
 		// run f; 0 = returned, 1 = os.Exit, 2 = panic
